@@ -215,6 +215,12 @@ class AstToDjangoQVisitor(visitor.NodeVisitor):
 
     def visit_Compare(self, node: ast.Compare) -> lookups.Lookup:
         ":meta private:"
+        # 'null eq/ne x' means the same as 'x eq/ne null'
+        if isinstance(node.left, ast.Null) and isinstance(
+            node.comparator, (ast.Eq, ast.NotEq)
+        ):
+            node = ast.Compare(node.comparator, node.right, node.left)
+
         lhs = self.visit(node.left)
 
         # Special case: comparison to NULL => isnull=True/False
